@@ -1,6 +1,8 @@
 package c03
 
 import (
+	"strconv"
+	"strings"
 	"testing"
 
 	"go.lstv.dev/util/sem"
@@ -8,9 +10,21 @@ import (
 	"verifharness/vkit"
 )
 
-var coldScenarios = []string{"valid build only", "valid pre only", "parse tag", "parse version bytes", "default parser rule 1", "unmarshal text invalid", "compare pre-release", "format only"}
+var coldScenarios = []string{"valid build only", "valid pre only", "parse tag", "parse version bytes", "default parser rule 1", "unmarshal text invalid", "compare pre-release", "format only", "first parses under MaxInputLength 3", "first parses under MaxInputLength 5", "first parses under MaxInputLength 13", "first parses under MaxInputLength 0"}
 
 func coldFirst(scenario string) {
+	if strings.HasPrefix(scenario, "first parses under MaxInputLength ") {
+		// the limit is a setting: the process starts parsing under another one, which is then put back
+		lim, _ := strconv.Atoi(strings.TrimPrefix(scenario, "first parses under MaxInputLength "))
+		old := sem.MaxInputLength
+		sem.MaxInputLength = lim
+		_, _ = sem.Parse("v1.2.3-rc.1+b")
+		_, _ = sem.ParseVersion([]byte("1.2.3"))
+		var v sem.Ver
+		_ = v.UnmarshalText([]byte("1.0.0-alpha.1"))
+		sem.MaxInputLength = old
+		return
+	}
 	switch scenario {
 	case "valid build only":
 		_ = sem.Ver{Major: 1, Build: "001"}.Valid()
